@@ -112,14 +112,18 @@ def build_binary(u, workdir, log, timeout):
     for f_ in u.getlist('enforce'):
         cmd += ['--enforce-contract', f_]
     for f_ in u.getlist('replace'):
-        cmd += ['--replace-call-with-contract', f_]
+        # a contract-bearing declaration that the extracted code never calls is not in the binary: skip it
+        if len(re.findall(r'\b%s\s*\(' % re.escape(f_), u.c_text)) >= 2:
+            cmd += ['--replace-call-with-contract', f_]
     if u.get('loop-contracts', 'yes') != 'no':
         cmd += ['--apply-loop-contracts']
     cmd += u.get('instrument', '').split()
     cmd += [a, b]
     rc, out, err, _ = _run(cmd, timeout, workdir, log)
     if rc != 0:
-        raise cxx.ExtractError('goto-instrument failed: ' + (err or out)[-1500:])
+        msg = (err or out)
+        d = re.search(r'<< EXTRA DIAGNOSTICS >>(.*?)<< END EXTRA DIAGNOSTICS >>', msg, re.S)
+        raise cxx.ExtractError('goto-instrument failed: ' + (d.group(1).strip() if d else msg[-800:]))
     return b
 
 
@@ -158,11 +162,19 @@ def run_unit(path, scratch, mutate=None, extra_name=''):
         res.reason = 'extraction/build: ' + str(e)
         res.seconds = time.time() - t0
         return res
-    cmd = ['cbmc', binary, '--json-ui'] + checks_flags(u)
-    if u.get('objbits'):
-        cmd += ['--object-bits', u.get('objbits')]
-    rc, out, err, dt = _run(cmd, timeout, workdir, res.cmds)
-    res.solver_seconds = dt
+    objbits = int(u.get('objbits', '0') or 0)
+    while True:
+        cmd = ['cbmc', binary, '--json-ui'] + checks_flags(u)
+        if objbits:
+            cmd += ['--object-bits', str(objbits)]
+        rc, out, err, dt = _run(cmd, timeout, workdir, res.cmds)
+        res.solver_seconds += dt
+        if 'too many addressed objects' in out and (objbits or 8) < 12:
+            objbits = (objbits or 8) + 2      # default is 8; raise only when CBMC asks for it (cost grows with it)
+            continue
+        break
+    if objbits:
+        u.hdr['objbits'] = str(objbits)
     with open(os.path.join(workdir, 'cbmc.json'), 'w') as f:
         f.write(out)
     if rc == -9:
@@ -178,6 +190,32 @@ def run_unit(path, scratch, mutate=None, extra_name=''):
         res.reason = 'solver ignored a quantifier'
         res.seconds = time.time() - t0
         return res
+    # CBMC leaves properties UNKNOWN when other properties of the same run fail (the REACH guards always do):
+    # decide those in follow-up runs restricted to them.
+    for _round in range(3):
+        unk = [r for r in results if r.get('status') == 'UNKNOWN']
+        if not unk:
+            break
+        cmd2 = list(cmd)
+        for r in unk:
+            cmd2 += ['--property', r['property']]
+        rc2, out2, err2, dt2 = _run(cmd2, timeout, workdir, res.cmds)
+        res.solver_seconds += dt2
+        if rc2 == -9:
+            res.reason = 'cbmc timeout after %ds (follow-up run for UNKNOWN properties)' % timeout
+            res.seconds = time.time() - t0
+            return res
+        results2, _, _ = parse_json(out2)
+        if not results2:
+            break
+        upd = dict((r['property'], r) for r in results2)
+        progressed = False
+        for i, r in enumerate(results):
+            if r.get('status') == 'UNKNOWN' and r['property'] in upd and upd[r['property']].get('status') != 'UNKNOWN':
+                results[i] = upd[r['property']]
+                progressed = True
+        if not progressed:
+            break
     clines = u.c_text.split('\n')
     for r in results:
         pid = r.get('property', '')
